@@ -285,10 +285,7 @@ func c19R3(c *Ctx) {
 		ok := false
 		if len(a) == 3 {
 			if jc, isCall := a[0].(*ssa.Call); isCall && kit.CalleeOf(jc.Common()) == join {
-				ok = kit.DerivesFrom(jc.Call.Args[0], func(v ssa.Value) bool {
-					p, isP := v.(*ssa.Parameter)
-					return isP && p.Name() == "destDir"
-				}) && kit.DerivesFrom(jc.Call.Args[0], isClean)
+				ok = fromParam(jc.Call.Args[0], argParam(fn, 1)) && kit.DerivesFrom(jc.Call.Args[0], isClean)
 			}
 		}
 		c.R.Check(ok, r, "ExtractBinary: file created at Join(destDir, cleanName)", c.Pos(call.Pos()), "ok", "the extracted file's path is not filepath.Join(destDir, cleanName)", true)
@@ -383,10 +380,7 @@ func c19R3(c *Ctx) {
 	if eg := c.SSA(r, pRegistry, "extractAndGuard"); eg != nil {
 		for _, call := range kit.CallsTo(eg, Set(c.Fn(r, pRegistry, "ExtractBinary"))) {
 			a := call.Common().Args
-			ok := len(a) == 2 && kit.DerivesFrom(a[1], func(v ssa.Value) bool {
-				p, isP := v.(*ssa.Parameter)
-				return isP && p.Name() == "stagingDir"
-			})
+			ok := len(a) == 2 && fromParam(a[1], argParam(eg, 1))
 			c.R.Check(ok, r, "extractAndGuard: extraction directory is under the staging directory", c.Pos(call.Pos()), "Join(stagingDir, ...)", "ExtractBinary's destination is not derived from the private staging directory", true)
 		}
 	}
@@ -529,7 +523,7 @@ func c19R5(c *Ctx) {
 			ok := false
 			if len(a) == 2 {
 				if dc, isCall := a[0].(*ssa.Call); isCall && kit.CalleeOf(dc.Common()) == dir {
-					if p, isP := dc.Call.Args[0].(*ssa.Parameter); isP && p.Name() == "path" {
+					if dc.Call.Args[0] == argParam(fn, 0) {
 						ok = true
 					}
 				}
@@ -540,7 +534,7 @@ func c19R5(c *Ctx) {
 			a := call.Common().Args
 			ok := false
 			if len(a) == 2 {
-				if p, isP := a[1].(*ssa.Parameter); isP && p.Name() == "path" {
+				if a[1] == argParam(fn, 0) {
 					ok = true
 				}
 			}
